@@ -369,6 +369,7 @@ type GenReplayFile struct {
 	RepoRev      string              `json:"repo_rev"`
 	ShrinkEvals  int                 `json:"shrink_evals"`
 	Directed     *DirectedInput      `json:"directed_input,omitempty"` // set instead of a tape when a committed regression input fails
+	Flaky        string              `json:"schedule_dependent,omitempty"` // set when the tape did not fail again at once (nondeterminism inside the simulated goderive)
 }
 
 // genReport minimises the failing tape (same clause must persist), confirms
@@ -392,11 +393,26 @@ func genReport(ctx *genCtx, o checkOpts, f *genResult, b genBudget) string {
 		return ctx.known(res.V) == nil
 	}
 	min, evals := orig, 0
-	if fails(orig) {
+	reproduced, tries := 0, 0
+	for tries < 6 && reproduced == 0 {
+		tries++
+		if fails(orig) {
+			reproduced++
+		}
+	}
+	flaky := ""
+	switch {
+	case reproduced > 0 && tries == 1:
 		min, evals = tape.Shrink(orig, fails, b.shrinkN, b.shrinkT)
-	} else {
-		// same tape, same binaries, different verdict: nondeterminism outside the seams
-		harnessTrouble("NON-REPRODUCIBLE: case %d of %s failed clause %s (%s) but its tape does not fail again", f.Idx, o.id, f.V.Clause, f.V.Detail)
+	case reproduced > 0:
+		// The same tape and the same binaries gave another verdict at first: the simulated goderive has a source
+		// of nondeterminism the seams do not own (goroutines of its own). The violation was observed on a real
+		// execution and again on a repetition, so it is reported; it is not minimised (shrinking needs a stable
+		// predicate) and the replay file says how often it reproduces.
+		flaky = fmt.Sprintf("the violation is schedule dependent inside goderive: the recorded tape failed the same way in 1 of %d repetitions after the original failure; replay repeats the tape up to 10 times", tries)
+	default:
+		// same tape, same binaries, never the same verdict again: nondeterminism outside the seams
+		harnessTrouble("NON-REPRODUCIBLE: case %d of %s failed clause %s (%s) but its tape does not fail again in %d repetitions", f.Idx, o.id, f.V.Clause, f.V.Detail, tries)
 	}
 	final := runRec(min)
 	detail := f.V.Detail
@@ -406,7 +422,7 @@ func genReport(ctx *genCtx, o checkOpts, f *genResult, b genBudget) string {
 		detail, decoded, rec = final.V.Detail, final.Sample, min
 	}
 	delete(decoded, "_tape")
-	rf := &GenReplayFile{Property: o.id, Violation: f.V.Clause, Detail: detail, Seed: o.seed, Run: f.Idx, Tape: rec, TapeOriginal: orig, Decoded: decoded, Engine: "gensim", RepoRev: repoRev(), ShrinkEvals: evals}
+	rf := &GenReplayFile{Property: o.id, Violation: f.V.Clause, Detail: detail, Seed: o.seed, Run: f.Idx, Tape: rec, TapeOriginal: orig, Decoded: decoded, Engine: "gensim", RepoRev: repoRev(), ShrinkEvals: evals, Flaky: flaky}
 	dirR := replaysDir()
 	os.MkdirAll(dirR, 0o755)
 	path := filepath.Join(dirR, fmt.Sprintf("%s-%d-%d.json", o.id, o.seed, f.Idx))
@@ -451,6 +467,12 @@ func genReplay(prop, path string) int {
 		return 1
 	}
 	res := fn(ctx, tape.ReplaySet(0, rf.Tape), dir)
+	for rep := 1; rep < 10 && res.V == nil && rf.Flaky != ""; rep++ {
+		// recorded as schedule dependent inside goderive: repeat the same tape
+		os.RemoveAll(dir)
+		os.MkdirAll(dir, 0o755)
+		res = fn(ctx, tape.ReplaySet(0, rf.Tape), dir)
+	}
 	js, _ := json.MarshalIndent(res.Sample, "", " ")
 	fmt.Println(string(js))
 	if res.V == nil {
